@@ -43,6 +43,17 @@ class ValuesProfile(StoreProfile):
             base = gen_sid(rng, m, vocab, t, run.scratch.setdefault("value_pool", {}), reuse=0.6) or "hamlet"
         tn = m.natural_type(base)
         r = rng.random()
+        if rng.random() < 0.12:
+            # a NEAR TWIN of a string the client already holds: the other unicode normalisation form, another letter case,
+            # a trailing blank -- different uris, hence different Sids, however alike they look
+            import unicodedata
+            held = sorted({sn[0] for sn in (run.scratch.get("snaps") or {}).values() if sn and sn[0]}) or [base]
+            b0 = rng.choice(held)
+            twins = [t for t in (unicodedata.normalize("NFD", b0), unicodedata.normalize("NFC", b0), b0.swapcase(),
+                                 b0.upper(), b0 + " ", b0.replace("e", "e\u0301", 1), b0.replace("o", "\u00f6", 1)) if t != b0]
+            if twins:
+                run.probes["near_twin_of_a_held_sid"] += 1
+                return X.call("Sid", rng.choice(twins))
         if r < 0.25:
             return X.call("Sid", base)
         if r < 0.40:
